@@ -6,6 +6,7 @@ import TonicModel.Lemmas.ShutdownProgress
 import TonicModel.Lemmas.ShutdownTrack
 import TonicModel.Lemmas.ShutdownContract
 import TonicModel.Lemmas.ShutdownTimeout
+import TonicModel.Lemmas.ShutdownBurst
 /-
 C13 — Graceful shutdown loses no accepted call.  Property theorems only; the invariant and its
 preservation are in `Lemmas/Shutdown`, the oracle in `Spec/Shutdown`.
@@ -31,6 +32,13 @@ WHAT IS PROVED ABOUT TONIC'S OWN LOGIC (serve_internal, serve_connection, Fuse, 
   * (b) the biased accept loop takes nothing once the signal is ready — `C13_no_accept_after_signal`,
     `C13_accept_disabled_after_signal`, `C13_no_accept_after_signal_trace`,
     `C13_no_accept_once_loop_over`, and `C13_no_accept_after_signal_fails` for the loop as found;
+    and for a BURST (several connections ready at once, the signal becoming ready between two of
+    them): `C13_burst_not_accepted_past_signal` — every burst size, every position of the signal,
+    whatever happens afterwards, the connections still queued at the signal are never accepted —
+    `C13_burst_no_accept_after_signal_trace`, and the counter-model of a loop that takes the whole
+    backlog in one go (`stepDrain`, Model/ShutdownBurst):
+    `C13_burst_not_accepted_past_signal_fails_for_a_draining_loop`,
+    `C13_draining_loop_differs_only_inside_a_burst`;
   * (c) the watch channel's receiver count is exactly "own receiver + one per unfinished
     connection task", a count of 0 means all accepted connections are closed, the serve future
     resolves iff the loop is over and the count is 0 — `C13_receiver_count_is_open_connections`,
@@ -146,6 +154,54 @@ theorem C13_no_accept_after_signal_fails :
     ∃ s, Reachable true false false s ∧ noAcceptAfterSignal (connViews s) = false := by
   refine ⟨_, .step (.loopAccept 0) (.step .offer (.step .sigFire (.init false) rfl) rfl) rfl, ?_⟩
   decide
+
+/-- (b) for a BURST — several connections ready on `incoming` at the same instant, and the signal
+becoming ready between two of them (on a single-threaded runtime: the accept itself fires it - an
+`incoming` that serves `j` connections and then stops the server).  From ANY reachable state of the
+repaired server, for EVERY burst size `n` and EVERY position `j` of the signal inside the burst
+(`burstLabels`: `n` offers, the accept loop handed the first `j`, then `sigFire`), whatever happens
+afterwards (`rest`: any labels, any length): every connection of the burst that was still queued
+when the signal became ready — `j`, …, `n - 1` — is still unaccepted.  The loop looks at the signal
+again before EVERY connection, however many are ready: there is no "rest of the backlog". -/
+theorem C13_burst_not_accepted_past_signal {g a : Bool} {s0 s2 : State}
+    (h0 : Reachable g true a s0) (n j : Nat) (rest : List Label)
+    (hrun : run s0 (burstLabels s0.conns.length n j ++ rest) = some s2)
+    (i : Nat) (hji : j ≤ i) (hin : i < n) :
+    ∃ cn, s2.conns[s0.conns.length + i]? = some cn ∧ cn.accepted = false :=
+  burst_rest_unaccepted h0 n j rest hrun i hji hin
+
+/-- The same on traces, as a corollary of `C13_no_accept_after_signal_trace`: no execution of the
+repaired server contains a burst with the signal at position `j` and, anywhere later, an accept —
+of a connection of the burst or of any other. -/
+theorem C13_burst_no_accept_after_signal_trace (g a t : Bool) (pre mid post : List Label)
+    (base n j c : Nat) :
+    run (init g true a t) (pre ++ burstLabels base n j ++ mid ++ [.loopAccept c] ++ post) = none := by
+  have := C13_no_accept_after_signal_trace g a t (pre ++ burstOffers n ++ burstAccepts base j) mid post c
+  simpa [burstLabels, List.append_assoc] using this
+
+/-- The burst statement is FALSE of a loop that takes the whole backlog in one go (the counter-model
+`stepDrain`: after handing a connection to its task the loop polls `incoming` again on the spot and
+only goes back to `select!` — where the signal is looked at — when nothing is ready): two
+connections offered at once, the first taken, the signal fires, and the second — queued when the
+signal became ready — is accepted all the same. -/
+theorem C13_burst_not_accepted_past_signal_fails_for_a_draining_loop :
+    ∃ d, runDrain { st := init true true false, inDrain := false }
+            (burstLabels 0 2 1 ++ [.loopAccept 1]) = some d
+      ∧ d.st.sigReady = true ∧ (d.st.conns[1]?).map (·.accepted) = some true := by
+  refine ⟨_, rfl, ?_, ?_⟩ <;> decide
+
+/-- … and that is the ONLY difference: outside its inner loop (`inDrain = false`: the loop is at
+`select!`) the counter-model takes exactly the steps of the model. -/
+theorem C13_draining_loop_differs_only_inside_a_burst (d : DrainState) (l : Label)
+    (h : d.inDrain = false) : (stepDrain d l).map (·.st) = step d.st l := by
+  cases l <;> simp [stepDrain, h, Option.map_map, Function.comp_def]
+
+-- the hypotheses of the burst theorem are satisfiable by non-trivial runs: a burst of 3 with the
+-- signal behind the 2nd, on a server that already has a connection, followed by the loop's exit
+example : (run (init true true false) ([.offer, .loopAccept 0] ++ burstLabels 1 3 2
+    ++ [.loopSig, .afterLoop, .connSig 0])).isSome = true := by decide
+-- … and the model itself refuses the step the draining loop takes
+example : run (init true true false) (burstLabels 0 2 1 ++ [.loopAccept 1]) = none := by decide
 
 /-- (c) + (a) Whenever the serve future has resolved, every accepted connection has been closed
 and every accepted call whose caller did not itself give up has delivered its complete, true
